@@ -1088,19 +1088,18 @@ def rule_keydiff_sign(ctx, which, units=None):
                 ops = [_strip_cast(f.term(c_, inline=False)) for c_ in nd['ch']]
                 if not (ops[0][0] in ('param', 'local') and (ops[1][0] in ('param', 'field', 'index') or ops[1][0] == 'local')):
                     continue
-                # a difference of two key-typed values (same type as the key parameter)
-                kts = [u.type(p_['t']) for p_ in f.params if p_['name'] in ('k', 'key')]
-                if not kts or (u.type(f.n(f.strip(nd['ch'][0], casts=True)).get('t', 0)) or {}).get('bits') != (u.base_type(kts[0]['id']) if False else kts[0]).get('bits'):
-                    pass
+                # width of the operands before the integral promotions: a difference of two unsigned char / unsigned short keys
+                # is computed exactly in (signed) int, which is wider than the keys and therefore loses nothing
+                kb = max([(u.type(f.n(f.strip(c_, casts=True)).get('t', 0)) or {}).get('bits', 0) or 0 for c_ in nd['ch']] + [0]) or dt.get('bits', 0)
                 n += 1
-                if dt.get('signed'):
+                if dt.get('signed') and dt.get('bits', 0) <= kb:
                     bad = bad or (i, f"the difference itself has the signed type `{dt.get('s')}`")
                     continue
                 # follow the value upwards through implicit/explicit integral casts and an initialised local
                 p_ = f.sparent(i)
                 while p_ and f.n(p_)['c'] in ('ParenExpr', 'ImplicitCastExpr', 'CStyleCastExpr', 'CXXStaticCastExpr', 'CXXFunctionalCastExpr'):
                     ct = u.type(f.n(p_).get('t', 0)) or {}
-                    if ct.get('k') == 'int' and ct.get('signed') and ct.get('bits', 0) <= dt.get('bits', 0):
+                    if ct.get('k') == 'int' and ct.get('signed') and ct.get('bits', 0) <= min(kb, dt.get('bits', 0)):
                         bad = bad or (p_, f"`{fmt_term(f.term(i, inline=False))[:40]}` ({dt.get('s')}) is converted to `{ct.get('s')}`: a difference of 2^{ct.get('bits', 64) - 1} or more becomes negative")
                     p_ = f.sparent(p_)
             if n == 0 and tn.endswith('::search'):
